@@ -13,11 +13,23 @@ def register(pid):
         return f
     return deco
 
-def pmap(fn, items, procs=NPROC):
+def pmap(fn, items, procs=NPROC, max_timeouts=3):
+    """parallel map; if several cases hit the watchdog the remaining ones are not run (the
+    violation is already established and each further stall costs CASE_TIMEOUT seconds)"""
     if len(items) == 0:
         return []
+    out = [None] * len(items)
+    timeouts = 0
     with mp.get_context("fork").Pool(procs) as pool:
-        return pool.map(fn, items, chunksize=max(1, len(items) // (procs * 8)))
+        it = pool.imap(fn, items, chunksize=max(1, min(8, len(items) // (procs * 8))))
+        for i, r in enumerate(it):
+            out[i] = r
+            if isinstance(r, dict) and r.get("timeout"):
+                timeouts += 1
+                if timeouts >= max_timeouts:
+                    pool.terminate()
+                    break
+    return [r for r in out if r is not None]
 
 # ---------------------------------------------------------------- id-free views of dumps
 def parse_dump(line):
@@ -87,13 +99,13 @@ def is_plain(op):
     return op[0] in ("expand", "bfs", "dfs", "target", "reclaim", "pickle") or (op[0] == "min" and not op[3])
 
 # ---------------------------------------------------------------- generic case worker
-class CaseTimeout(Exception):
+class CaseTimeout(BaseException):
     pass
 
 def _alarm(signum, frame):
     raise CaseTimeout()
 
-CASE_TIMEOUT = int(os.environ.get("VERIF_CASE_TIMEOUT", "40"))
+CASE_TIMEOUT = int(os.environ.get("VERIF_CASE_TIMEOUT", "30"))
 
 def _case_worker(case):
     """runs the history on code and model, plus a fresh full-BFS reference on the model"""
@@ -269,6 +281,9 @@ def gen_cases(rng, count, nmin, nmax, kinds, max_len, cfg_choices=(100000,), two
 def _fix_worker(case):
     """clamp node ids to the diagram's size at that point and expand macro ops (seeds_all, ...)
     into explicit per-node ops, by running the history once on the real side"""
+    import signal
+    signal.signal(signal.SIGALRM, _alarm)
+    signal.alarm(CASE_TIMEOUT)
     try:
         sd = make_sd(case["rules"], case.get("config") or {}); nm = var_names(sd)
         out = []
@@ -289,8 +304,12 @@ def _fix_worker(case):
                 out.append(o)
         case = dict(case); case["history"] = out
         return case
+    except CaseTimeout:
+        return case
     except Exception:
         return case
+    finally:
+        signal.alarm(0)
 
 def load_corpus(pid):
     path = os.path.join(VERIF, "corpus", pid + ".jsonl")
